@@ -140,6 +140,23 @@ def runShow (E : Env LitPat) (c : NCfg LitPat) : Sess → List Ev → List Strin
     let new := s'.out.drop s.out.length
     (if new.isEmpty then "." else ",".intercalate (new.map showOut)) :: runShow E c s' es
 
+/-- `name:ows1:value:ows2:lf` -/
+def field? (s : String) : Option (Field × Bool) :=
+  match s.splitOn ":" with
+  | [n, o1, v, o2, lf] =>
+    match hexOr n, hexOr o1, hexOr v, hexOr o2, flag? lf with
+    | some n, some o1, some v, some o2, some lf => some (⟨n, o1, v, o2⟩, lf)
+    | _, _, _, _, _ => none
+  | _ => none
+
+/-- the specification side on a structured head: the rendered bytes and the Host header HTTP defines -/
+def specStep (rl rlLf endLf : String) (fs : List String) : String :=
+  match hexOr rl, flag? rlLf, flag? endLf, mapM? field? fs with
+  | some rl, some rlLf, some endLf, some fs =>
+    showBytes (renderHeadMixed rl rlLf fs endLf) ++ " " ++
+      (match specHost (fs.map (·.1)) with | some v => "some " ++ showBytes v | none => "none")
+  | _, _, _, _ => "bad-op"
+
 def stepPure (line : String) : String :=
   match fields line with
   | ["hh", tcp, dc, ds] =>
@@ -174,6 +191,7 @@ def stepPure (line : String) : String :=
       | some conn, some evs => " ".intercalate (runShow E c (Sess.init c.tcp conn) evs)
       | _, _ => "bad-op"
     | _ => "bad-op"
+  | "spec" :: rl :: rlLf :: endLf :: fs => specStep rl rlLf endLf fs
   | "tls" :: dtls :: segs =>
     match flag? dtls, mapM? hexOr segs with
     | some dtls, some segs =>
